@@ -19,17 +19,21 @@ ASSUMPTIONS = ["sequentially consistent interleavings that switch only at pthrea
                "one thread per slot; join_all_managed is called from the main thread only (as aws_common_library_clean_up does)",
                "thread-local storage (tl_wrapper) and real stacks are not modelled; thread functions terminate"]
 RULE = ("programs of 1..6 thread slots (manual/managed, nested launches, 0..4 at-exit registrations, joins, count reads, "
-        "join-all racing completions, timeouts with virtual time, injected pthread_create failures) x schedules "
+        "join-all racing completions, timeouts with virtual time, injected pthread_create failures, launches with a "
+        "cpu_id (valid / not honourable: first create fails with EINVAL and the library retries unpinned / retry fails too)) x schedules "
         "(choice lists from the PRNG, spurious wake-ups, and every schedule of small programs up to a preemption bound, "
         "enumerated on the model); non-trivial = at least two threads of which one is managed")
 NOT_PROVED = ["c20_no_deadlock: kept as `def c20_no_deadlock_statement : Prop` (full strength, for WFProgress programs). "
-              "Proved part = c20_no_deadlock_partial (mutual exclusion; the lock holder always has an enabled step, so "
-              "`lock` never blocks for ever) + c20_managed_owner (no double join, no self-join). Missing: progress of join "
-              "chains and of the join-all condition wait (lost-wake-up freedom). Evidence instead: every enumerated / "
-              "random schedule of the correspondence run ends with all threads finished (the scheduler reports a "
-              "deadlock or livelock as a violation)."]
+              "Proved parts: c20_no_deadlock_partial (mutual exclusion; the lock holder always has an enabled step, so "
+              "`lock` never blocks for ever), c20_no_lost_wakeup (only main waits; an un-notified waiter implies "
+              "count >= 2 or a notify is the lock holder's next instruction; every count-- is followed by the notify) "
+              "and c20_managed_owner (no double join, no self-join). Missing: progress of the pthread_join chains "
+              "(acyclicity via the hand-over order / launch tree). Evidence instead: every enumerated / random "
+              "schedule of the correspondence run ends with all threads finished (the scheduler reports a deadlock "
+              "or livelock as a violation)."]
 
-ACT = re.compile(r"^([LJDACWTYS])(\d*)$")
+ACT = re.compile(r"^([LPQRJDACWTYS])(\d*)$")
+LAUNCH = "LPQR"   # L: cpu_id -1; P: cpu 0; Q: cpu 1000, first pthread_create fails EINVAL, retried unpinned; R: retry fails too
 
 
 # ------------------------------------------------------------------ generator
@@ -53,7 +57,8 @@ def gen_program(rng, nmax=6, allow_time=True):
         acts = []
         ncb = rng.choice([0, 0, 1, 1, 2, 3, 4]) if k else (1 if rng.random() < 0.1 else 0)
         cbs = rng.sample(range(1, 10), ncb)
-        items = [f"A{c}" for c in cbs] + [f"L{c}" for c in children[k]]
+        lop = {c: ("L" if rng.random() < 0.68 else rng.choice("PQQQR")) for c in children[k]}
+        items = [f"A{c}" for c in cbs] + [f"{lop[c]}{c}" for c in children[k]]
         items += ["Y"] * rng.choice([0, 0, 1, 1, 2, 3])
         items += ["C"] * rng.choice([0, 0, 0, 1, 2])
         if use_time and k and rng.random() < 0.5:
@@ -62,7 +67,7 @@ def gen_program(rng, nmax=6, allow_time=True):
         # launches keep child order irrelevant; joins of manual children come after their launch
         for c in children[k]:
             if not managed[c]:
-                pos = items.index(f"L{c}")
+                pos = items.index(f"{lop[c]}{c}")
                 at = rng.randint(pos + 1, len(items))
                 items.insert(at, f"D{c}" if c in detached else f"J{c}")
                 if c not in detached and rng.random() < 0.3:
@@ -87,7 +92,7 @@ def gen_program(rng, nmax=6, allow_time=True):
     ops = [f"slot {k} {'M' if managed[k] else 'U'} " + " ".join(bodies[k]) for k in range(1, n + 1)]
     ops = [o.rstrip() for o in ops]
     ops.append(("main " + " ".join(bodies[0])).rstrip())
-    nl = sum(1 for k in bodies for a in bodies[k] if a.startswith("L"))
+    nl = sum(1 for k in bodies for a in bodies[k] if a[0] in LAUNCH)
     tags = {"n": n, "managed": sum(managed.values()), "time": use_time}
     if nl and rng.random() < 0.12:
         ops.append(f"fail {rng.randrange(nl)} {rng.choice([11, 11, 12, 1])}")
@@ -134,6 +139,11 @@ SMALL = [
     ("count-reader", ["slot 1 M C", "slot 2 M", "main L1 L2 C W C"], (1, 80, 300), (2, 90, 5000)),
     ("timeout", ["slot 1 M S400", "main T120 L1 W T0 W", "tick 50"], (1, 120, 200), (2, 160, 3000)),
     ("early-joinall", ["slot 1 M Y Y", "main W L1 W W"], (2, 60, 300), (3, 80, 4000)),
+    # cpu pinning that cannot be honoured: first pthread_create fails with EINVAL, the library retries unpinned
+    ("pinned-retry", ["slot 1 M A1", "slot 2 U", "main Q1 Q2 J2 W C"], (2, 70, 400), (3, 90, 8000)),
+    ("pinned-retry-nested", ["slot 1 M Q2", "slot 2 M", "main P1 W"], (2, 70, 300), (3, 90, 6000)),
+    ("pinned-retry-timeout", ["slot 1 M", "main T200 Q1 W T0 W", "tick 50"], (1, 120, 200), (2, 160, 3000)),
+    ("pinned-retry-fails", ["slot 1 M", "slot 2 M", "main R1 C L2 W"], (2, 70, 300), (3, 90, 5000)),
 ]
 
 
@@ -298,7 +308,7 @@ def nontrivial(case):
 
 def distribution(cases, c_out):
     d = {"threads": {}, "managed_slots": 0, "manual_slots": 0, "atexit_regs": 0, "joinall_calls": 0, "timeouts_cfg": 0,
-         "create_fail": 0, "joinall_ok": 0, "joinall_err": 0, "sync_events": 0, "spurious": 0, "waits": 0, "exhaustive_scheds": 0}
+         "create_fail": 0, "pinned_launch": 0, "pinned_retry": 0, "pinned_retry_fails": 0, "joinall_ok": 0, "joinall_err": 0, "sync_events": 0, "spurious": 0, "waits": 0, "exhaustive_scheds": 0}
     for i, c in enumerate(cases):
         n = c.tags.get("n", 0)
         d["threads"][str(n)] = d["threads"].get(str(n), 0) + 1
@@ -312,6 +322,9 @@ def distribution(cases, c_out):
                 d["atexit_regs"] += sum(1 for a in t if a.startswith("A"))
                 d["joinall_calls"] += sum(1 for a in t if a == "W")
                 d["timeouts_cfg"] += sum(1 for a in t if a.startswith("T") and a != "T0")
+                d["pinned_launch"] += sum(1 for a in t[1:] if a[0] in "PQR" and a[1:].isdigit())
+                d["pinned_retry"] += sum(1 for a in t[1:] if a[0] in "QR" and a[1:].isdigit())
+                d["pinned_retry_fails"] += sum(1 for a in t[1:] if a[0] == "R" and a[1:].isdigit())
             if t[0] == "fail":
                 d["create_fail"] += 1
         for l in c_out.get(i, []):
